@@ -40,8 +40,6 @@ func NewGroup(modules ...Module) *Group {
 
 	// Initialize groups modules.
 	for _, m := range modules {
-		mgr := m.Manager()
-
 		// Skip non-values.
 		switch {
 		case m == nil:
@@ -51,6 +49,13 @@ func NewGroup(modules ...Module) *Group {
 			// If nil values are given via a struct, they are will be interfaces to a
 			// nil type. Ignore these too.
 			continue
+		}
+
+		// Only get the manager after nil modules are skipped,
+		// as calling Manager() on a nil module panics.
+		mgr := m.Manager()
+
+		switch {
 		case mgr == nil:
 			// Skip modules without manager.
 			continue
